@@ -1074,6 +1074,11 @@ func (ex *Exec) execFor(st *State, s *ast.ForStmt, label string) flow {
 	ex.inLoop++
 	exits, out := iter(head)
 	ex.inLoop--
+	if ex.discovery == 0 {
+		for _, e := range exits {
+			ex.checkExits(e, ls, nil)
+		}
+	}
 	out.normal = ex.mergeStates(exits)
 	return out
 }
